@@ -65,6 +65,7 @@ func main() {
 	}
 	c := &mc.Ctx{ID: id, Tier: *tier, Seed: seed, Start: time.Now(), Budget: budget, Rep: mc.NewReporter(id, fnd), Ev: mc.NewEvidence("model_checking"), Hooks: checks.HooksOn}
 	mc.StartBlockWatch(c, "github.com/asticode/go-astits.")
+	mc.StartGuardWatch(c)
 	mc.OnJobPanic = func(i int64, p any, stack string) {
 		if len(stack) > 1500 {
 			stack = stack[:1500]
